@@ -3,7 +3,6 @@ package server
 import (
 	"math"
 	"sort"
-	"strconv"
 	"time"
 
 	"github.com/tidwall/geojson"
@@ -289,8 +288,7 @@ func extendRoamMessage(
 	nmsg = append(nmsg, `,"object":`...)
 	nmsg = match.obj.AppendJSON(nmsg)
 	nmsg = append(nmsg, `,"meters":`...)
-	nmsg = strconv.AppendFloat(nmsg,
-		math.Floor(match.meters*1000)/1000, 'f', -1, 64)
+	nmsg = appendJSONFloat(nmsg, math.Floor(match.meters*1000)/1000)
 	if fence.roam.scan != "" {
 		nmsg = append(nmsg, `,"scan":[`...)
 		col, _ := sw.s.cols.Get(fence.roam.key)
